@@ -96,6 +96,8 @@ def run(modname, fname, budget):
             if m:
                 reach['call'] = m.group(1).replace('__reach(', '(', 1)
                 break
+        if 'call' not in reach and reach['status'] == 'REFUTED':
+            reach['status'] = 'UNREACHED'   # "Unable to meet precondition": every path aborted or the pre is vacuous
         out['reach'] = reach
     r = analyse(fn, budget)
     if r is None:
@@ -103,10 +105,12 @@ def run(modname, fname, budget):
     out.update(status=r['status'], confirmed_paths=r['confirmed_paths'], cpu=r['cpu'])
     cex = []
     for st, msg in r['messages']:
-        if st in ('POST_FAIL', 'POST_ERR', 'EXEC_ERR', 'PRE_UNSAT', 'SYNTAX_ERR', 'IMPORT_ERR'):
+        if st in ('POST_FAIL', 'POST_ERR', 'EXEC_ERR'):
             m = CALL_RE.search(msg)
             cex.append(dict(state=st, message=msg[:600], call=m.group(1) if m else None))
     out['messages'] = [(st, msg[:300]) for st, msg in r['messages']]
+    if not cex and out['status'] == 'REFUTED':
+        out['status'] = 'UNREACHED' if any(st == 'PRE_UNSAT' for st, _ in r['messages']) else 'UNKNOWN'
     out['counterexamples'] = cex
     return out
 
